@@ -51,45 +51,52 @@ Proof. intros H. induction s as [|i s IH]; cbn [map]; constructor; auto.
   destruct (Nat.lt_ge_cases i (length l)) as [Hi|Hi]; [apply ple_nth; auto|].
   rewrite !nth_overflow; [lra| rewrite <- (ple_length _ _ H); lia | lia]. Qed.
 
+Lemma bsc_length (l : list R) : length (bsc l) = steps.
+Proof. rewrite bsc_sel, map_length. apply sel_length. Qed.
+(* whatever the constructor accepts is well formed, for ANY input arrays of any lengths *)
+Theorem mk_total_wf b (l r : list R) p : mkg b l r = Ok p -> WFs p.
+Proof.
+  unfold mk_staircase_gen. destruct (left_right_switch RN b l r) as [l' r']. cbn [T RN].
+  destruct (negb _); [discriminate|].
+  destruct (is_increasing RN (bsc l')) eqn:I1; [|discriminate]. destruct (is_increasing RN (bsc r')) eqn:I2; [|discriminate].
+  cbn [andb]. destruct (crosses RN (bsc l') (bsc r')) eqn:C; [discriminate|]. intros A; inversion A; subst.
+  constructor; cbn [fst snd]; try (apply is_increasing_true_sorted; assumption); try apply bsc_length.
+  apply crosses_false_ple; [rewrite !bsc_length; reflexivity|exact C].
+Qed.
 Theorem mk_wf b (l r : list R) p : ple l r -> mkg b l r = Ok p -> WFs p /\ p = (bsc l, bsc r).
 Proof.
-  intros Hle. unfold mk_staircase_gen.
+  intros Hle E0. split; [eapply mk_total_wf; eauto|]. revert E0. unfold mk_staircase_gen.
   assert (E : left_right_switch RN b l r = (l, r)).
   { unfold left_right_switch. destruct b.
     - destruct (lex_ge RN l r) eqn:G; [|reflexivity]. rewrite (lex_ge_true_le l r Hle G). reflexivity.
     - destruct (all_ge RN l r) eqn:G; [|reflexivity].
       assert (l = r) by (apply ple_antisym; auto; apply all_ge_true_ple; auto; apply ple_length; auto). subst; reflexivity. }
   rewrite E. cbn [T RN]. destruct (negb _); [discriminate|].
-  destruct (is_increasing RN (bsc l)) eqn:I1; [|discriminate]. destruct (is_increasing RN (bsc r)) eqn:I2; [|discriminate].
-  cbn [andb]. intros A; inversion A; subst. split; [|reflexivity].
-  constructor; cbn [fst snd]; try (apply is_increasing_true_sorted; assumption).
-  - rewrite bsc_sel, map_length. apply sel_length.
-  - rewrite bsc_sel, map_length. apply sel_length.
-  - rewrite !bsc_sel. rewrite <- (ple_length _ _ Hle). apply ple_sel. exact Hle.
+  destruct (is_increasing RN (bsc l) && is_increasing RN (bsc r)); [|discriminate].
+  destruct (crosses RN (bsc l) (bsc r)); [discriminate|]. intros A; inversion A; reflexivity.
 Qed.
 (* candidate bounds in the inverted order everywhere (what an antitone map produces): the switch restores them *)
 Theorem mk_wf_rev b (l r : list R) p : ple r l -> mkg b l r = Ok p -> WFs p /\ p = (bsc r, bsc l).
 Proof.
-  intros Hle. unfold mk_staircase_gen.
+  intros Hle E0. split; [eapply mk_total_wf; eauto|]. revert E0. unfold mk_staircase_gen.
   assert (E : left_right_switch RN b l r = (r, l)).
   { unfold left_right_switch. destruct b; [rewrite (lex_ge_ple l r Hle)|rewrite (all_ge_ple l r Hle)]; reflexivity. }
   rewrite E. cbn [T RN]. destruct (negb _); [discriminate|].
-  destruct (is_increasing RN (bsc r)) eqn:I1; [|discriminate]. destruct (is_increasing RN (bsc l)) eqn:I2; [|discriminate].
-  cbn [andb]. intros A; inversion A; subst. split; [|reflexivity].
-  constructor; cbn [fst snd]; try (apply is_increasing_true_sorted; assumption).
-  - rewrite bsc_sel, map_length. apply sel_length.
-  - rewrite bsc_sel, map_length. apply sel_length.
-  - rewrite !bsc_sel. rewrite <- (ple_length _ _ Hle). apply ple_sel. exact Hle.
+  destruct (is_increasing RN (bsc r) && is_increasing RN (bsc l)); [|discriminate].
+  destruct (crosses RN (bsc r) (bsc l)); [discriminate|]. intros A; inversion A; reflexivity.
 Qed.
-(* whatever the constructor accepts has the configured length and sorted bounds, for any input arrays *)
-Theorem mk_structure b (l r : list R) p : mkg b l r = Ok p ->
-  length (fst p) = steps /\ length (snd p) = steps /\ Rsorted (fst p) /\ Rsorted (snd p).
+(* bounds that cross at some steps but not all are rejected *)
+Theorem mk_rejects_crossing b (l r : list R) : length l = steps -> length r = steps -> ~ ple l r -> ~ ple r l ->
+  forall p, mkg b l r <> Ok p.
 Proof.
-  unfold mk_staircase_gen. destruct (left_right_switch RN b l r) as [l' r']. cbn [T RN].
-  destruct (negb _); [discriminate|].
-  destruct (is_increasing RN (bsc l')) eqn:I1; [|discriminate]. destruct (is_increasing RN (bsc r')) eqn:I2; [|discriminate].
-  cbn [andb]. intros A; inversion A; subst. cbn [fst snd].
-  repeat split; try (apply is_increasing_true_sorted; assumption); rewrite bsc_sel, map_length; apply sel_length.
+  intros Hl Hr N1 N2 p E. pose proof (mk_total_wf b l r p E) as W. revert E. unfold mk_staircase_gen.
+  destruct (left_right_switch RN b l r) as [l' r'] eqn:S. 
+  assert (H : (l' = l /\ r' = r) \/ (l' = r /\ r' = l)).
+  { unfold left_right_switch in S. destruct (if b then _ else _); inversion S; auto. }
+  cbn [T RN]. destruct (negb _); [discriminate|]. destruct (_ && _); [|discriminate].
+  destruct (crosses RN (bsc l') (bsc r')); [discriminate|]. intros A; inversion A; subst p.
+  destruct W as [_ _ _ _ W5]. cbn [fst snd] in W5.
+  destruct H as [[-> ->]|[-> ->]]; rewrite !bound_steps_id in W5 by assumption; contradiction.
 Qed.
 End Mk.
 
@@ -377,3 +384,73 @@ Proof.
     destruct (peval RN steps plo phi b) as [y| |]; cbn [rbind] in E; try discriminate. eapply pimp_wf; [apply IHa; auto|apply IHb; auto|exact E].
 Qed.
 End Bin.
+
+(* ---------- the reported support ---------- *)
+Lemma wf_range n p : WF n p -> (0 < n)%nat -> minl RN (fst p) = nth 0 (fst p) 0 /\ maxl RN (snd p) = last (snd p) 0.
+Proof.
+  intros [A1 A2 A3 A4 A5] Hn. split.
+  - assert (Ne : fst p <> []) by (intro E; rewrite E in A1; cbn in A1; lia).
+    apply Rle_antisym; [apply minl_le, nth_In; lia|].
+    destruct (In_nth _ _ 0 (minl_in _ Ne)) as (i & Hi & E). rewrite <- E. apply Rsorted_nth; auto. lia.
+  - assert (Ne : snd p <> []) by (intro E; rewrite E in A2; cbn in A2; lia).
+    apply Rle_antisym; [|apply maxl_ge; rewrite last_as_nth; apply nth_In; lia].
+    destruct (In_nth _ _ 0 (maxl_in _ Ne)) as (i & Hi & E). rewrite <- E, last_as_nth. apply Rsorted_nth; auto. lia.
+Qed.
+
+(* ---------- moments of a finite distribution on [a, b] (Popoviciu) ---------- *)
+Fixpoint dot (ws xs : list R) : R := match ws, xs with w :: ws', x :: xs' => w * x + dot ws' xs' | _, _ => 0 end.
+Definition sum_list (ws : list R) : R := fold_right Rplus 0 ws.
+Lemma dot_affine2 (c2 c1 c0 : R) : forall ws xs : list R, length xs = length ws ->
+  dot ws (map (fun x => c2 * (x * x) + c1 * x + c0) xs) = c2 * dot ws (map (fun x => x * x) xs) + c1 * dot ws xs + c0 * sum_list ws.
+Proof. induction ws as [|w ws IH]; intros [|x xs] H; cbn in H; try lia; cbn [map dot sum_list fold_right]; [ring|].
+  rewrite IH by lia. unfold sum_list. ring. Qed.
+Lemma dot_nonpos (f : R -> R) : forall ws xs : list R, Forall (fun w => 0 <= w) ws -> Forall (fun x => f x <= 0) xs -> dot ws (map f xs) <= 0.
+Proof. induction ws as [|w ws IH]; intros [|x xs] Hw Hx; cbn [map dot]; try lra. inversion Hw; inversion Hx; subst. specialize (IH xs H2 H6). nra. Qed.
+Lemma dot_nonneg (f : R -> R) : forall ws xs : list R, Forall (fun w => 0 <= w) ws -> Forall (fun x => 0 <= f x) xs -> 0 <= dot ws (map f xs).
+Proof. induction ws as [|w ws IH]; intros [|x xs] Hw Hx; cbn [map dot]; try lra. inversion Hw; inversion Hx; subst. specialize (IH xs H2 H6). nra. Qed.
+Theorem moments_in_range (xs ws : list R) a b : length xs = length ws -> Forall (fun x => a <= x <= b) xs ->
+  Forall (fun w => 0 <= w) ws -> sum_list ws = 1 ->
+  let m := dot ws xs in a <= m <= b /\ 0 <= dot ws (map (fun x => (x - m) * (x - m)) xs) <= (b - a) * (b - a) / 4.
+Proof.
+  intros Hl Hx Hw Hs m.
+  assert (Ea : dot ws (map (fun x => x - a) xs) = m - a).
+  { rewrite (map_ext _ (fun x => 0 * (x * x) + 1 * x + - a)) by (intros; ring). rewrite dot_affine2 by exact Hl. rewrite Hs. unfold m. ring. }
+  assert (Eb : dot ws (map (fun x => x - b) xs) = m - b).
+  { rewrite (map_ext _ (fun x => 0 * (x * x) + 1 * x + - b)) by (intros; ring). rewrite dot_affine2 by exact Hl. rewrite Hs. unfold m. ring. }
+  assert (Ma : a <= m).
+  { assert (0 <= dot ws (map (fun x => x - a) xs)) by (apply dot_nonneg; auto; eapply Forall_impl; [|exact Hx]; cbn; intros; lra). lra. }
+  assert (Mb : m <= b).
+  { assert (dot ws (map (fun x => x - b) xs) <= 0) by (apply dot_nonpos; auto; eapply Forall_impl; [|exact Hx]; cbn; intros; lra). lra. }
+  split; [lra|].
+  set (S2 := dot ws (map (fun x => x * x) xs)).
+  assert (Ev : dot ws (map (fun x => (x - m) * (x - m)) xs) = S2 - m * m).
+  { rewrite (map_ext _ (fun x => 1 * (x * x) + (- 2 * m) * x + m * m)) by (intros; ring). rewrite dot_affine2 by exact Hl. rewrite Hs. fold S2. fold m. ring. }
+  assert (Ec : dot ws (map (fun x => (x - a) * (x - b)) xs) = S2 - (a + b) * m + a * b).
+  { rewrite (map_ext _ (fun x => 1 * (x * x) + (- (a + b)) * x + a * b)) by (intros; ring). rewrite dot_affine2 by exact Hl. rewrite Hs. fold S2. fold m. ring. }
+  assert (Hc : dot ws (map (fun x => (x - a) * (x - b)) xs) <= 0) by (apply dot_nonpos; auto; eapply Forall_impl; [|exact Hx]; cbn; intros; nra).
+  assert (Hv : 0 <= dot ws (map (fun x => (x - m) * (x - m)) xs)).
+  { apply dot_nonneg; auto. apply Forall_forall. intros x _. cbn beta. pose proof (Rle_0_sqr (x - m)) as Q. unfold Rsqr in Q. exact Q. }
+  rewrite Ev. rewrite Ev in Hv. rewrite Ec in Hc. split; [lra|]. pose proof (Rle_0_sqr (m - (a + b) / 2)) as Q. unfold Rsqr in Q. nra.
+Qed.
+
+(* ---------- with the constructor rejecting crossing bounds: no side condition on leaves or maps ---------- *)
+Section Total.
+Variable steps : nat.
+Variables plo phi : R.
+Theorem peval_wf_total (e : pexpr RN) : (0 < steps)%nat -> forall p, peval RN steps plo phi e = Ok p -> WF steps p.
+Proof.
+  intros Hs. induction e as [l r|k e IH c|e IH|e IH|f dom e IH|o d a IHa b IHb|a IHa b IHb|a IHa b IHb]; cbn [peval]; intros p E.
+  - eapply mk_total_wf; exact E.
+  - destruct (peval RN steps plo phi e) as [x| |]; cbn [rbind] in E; try discriminate. eapply num_eval_wf; [apply IH; reflexivity|exact E].
+  - destruct (peval RN steps plo phi e) as [x| |]; cbn [rbind] in E; try discriminate. eapply pneg_wf; [apply IH; reflexivity|exact E].
+  - destruct (peval RN steps plo phi e) as [x| |]; cbn [rbind] in E; try discriminate. eapply precip_wf; [apply IH; reflexivity|exact E].
+  - destruct (peval RN steps plo phi e) as [x| |]; cbn [rbind] in E; try discriminate.
+    unfold map_eval in E. destruct (_ && _); [|discriminate]. unfold punary in E. eapply mk_total_wf; exact E.
+  - destruct (peval RN steps plo phi a) as [x| |]; cbn [rbind] in E; try discriminate.
+    destruct (peval RN steps plo phi b) as [y| |]; cbn [rbind] in E; try discriminate. eapply bin_eval_wf; [exact Hs|apply IHa; reflexivity|apply IHb; reflexivity|exact E].
+  - destruct (peval RN steps plo phi a) as [x| |]; cbn [rbind] in E; try discriminate.
+    destruct (peval RN steps plo phi b) as [y| |]; cbn [rbind] in E; try discriminate. eapply penv_wf; [apply IHa; reflexivity|apply IHb; reflexivity|exact E].
+  - destruct (peval RN steps plo phi a) as [x| |]; cbn [rbind] in E; try discriminate.
+    destruct (peval RN steps plo phi b) as [y| |]; cbn [rbind] in E; try discriminate. eapply pimp_wf; [apply IHa; reflexivity|apply IHb; reflexivity|exact E].
+Qed.
+End Total.
